@@ -703,3 +703,64 @@ package litefs
 //@   ensures   pageN == 0 ==> result0 == ltx.ChecksumFlag && err == nil
 //@   ensures   err == nil ==> result0 & ltx.ChecksumFlag != 0
 //@   nopanic
+
+// ===========================================================================
+// db.go — rollback-journal entry points (C02, C07)
+// Guard dominance: every state-changing call is dominated by a Writeable() that returned true;
+// otherwise the result is ErrReadOnlyReplica and nothing was touched.
+
+//@ func (db *DB) WriteDatabaseAt [C02,C07]
+//@   requires  dbWF(db) && db.dirtyPageSet != nil && f != nil
+//@   ghost w bool = false
+//@   ghost wrote bool = false
+//@   on call DB.Writeable ; then w = ret0
+//@   on call DB.writeDatabasePage assert w && len(arg3) == int(db.pageSize) && db.pageSize != 0 &&
+//@        offset % int64(db.pageSize) == 0 && arg2 == uint32(offset / int64(db.pageSize)) + 1 && arg4 == false &&
+//@        (dbModeIs(db, DBModeRollback) ==> has(db.dirtyPageSet, arg2)) ; then wrote = true
+//@   ensures   !w ==> err == ErrReadOnlyReplica && !wrote && unchanged(db.pageSize, db.dirtyPageSet)
+//@   ensures   err == nil && len(data) != 0 ==> wrote
+//@   ensures   !wrote ==> (forall p uint32 :: has(db.dirtyPageSet, p) ==> old(has(db.dirtyPageSet, p)) || (w && p == uint32(offset / int64(db.pageSize)) + 1))
+//@   nopanic
+
+//@ func (db *DB) CreateJournal [C02,C07]
+//@   requires  dbWF(db)
+//@   ghost w bool = false
+//@   on call DB.Writeable ; then w = ret0
+//@   on call OS.OpenFile assert w
+//@   ensures   !w ==> err == ErrReadOnlyReplica
+//@   nopanic
+
+// WriteJournalAt: refused on a node without write authority; a write of exactly 28 zero bytes at offset 0
+// is the PERSIST-mode commit and goes through CommitJournal before the bytes are passed through.
+//@ func (db *DB) WriteJournalAt [C02,C07]
+//@   requires  dbWF(db) && db.dirtyPageSet != nil && f != nil
+//@   ghost w bool = false
+//@   ghost committed bool = false
+//@   on call DB.Writeable ; then w = ret0
+//@   on call DB.CommitJournal assume db.pageSize <= 65536
+//@   on call DB.CommitJournal assert w && offset == 0 && len(data) == 28 && arg2 == JournalModePersist ; then committed = true
+//@   on call os.File.WriteAt assert w && arg1 == data && arg2 == offset
+//@   ensures   !w ==> err == ErrReadOnlyReplica && unchanged(db.pageSize)
+//@   nopanic
+
+// TruncateDatabase: only to the size the database header already states (no image change).
+//@ func (db *DB) TruncateDatabase [C02,C07]
+//@   requires  dbWF(db)
+//@   on call DB.truncateDatabase assert db.pageSize != 0 && size % int64(db.pageSize) == 0 && arg2 == uint32(size / int64(db.pageSize))
+//@   nopanic
+
+//@ func (db *DB) TruncateJournal [C02,C07]
+//@   requires  dbWF(db) && db.dirtyPageSet != nil
+//@   on call DB.CommitJournal assert arg2 == JournalModeTruncate
+//@   nopanic
+
+//@ func (db *DB) RemoveJournal [C02,C07]
+//@   requires  dbWF(db) && db.dirtyPageSet != nil
+//@   on call DB.CommitJournal assert arg2 == JournalModeDelete
+//@   nopanic
+
+// readSQLiteDatabaseHeader: on success the page size is a power of two in [512, 65536].
+//@ func readSQLiteDatabaseHeader [C02,C16,C05]
+//@   requires  r != nil
+//@   ensures   err == nil ==> hdr.PageSize >= 512 && hdr.PageSize <= 65536 && hdr.PageSize & (hdr.PageSize - 1) == 0
+//@   nopanic
